@@ -488,6 +488,14 @@ class G:
                 if self.pr("type_hint", 0.12):
                     ded = (self.ch(cparts) + "| ") if self.pr("dedicated", 0.25) else ""
                     vat.append(Instr("type_hint", ded + "as " + self.ch(["{}", "()", "Unit"]), tag=("th", None)))
+                    if self.pr("type_hint_pair", 0.0):
+                        # a default and a dedicated hint of different forms side by side, in either order
+                        other = "" if ded else (self.ch(cparts) + "| ")
+                        t2 = Instr("type_hint", other + "as " + self.ch(["{}", "()"]), tag=("th", None))
+                        if self.pr("x", 0.5):
+                            vat.append(t2)
+                        else:
+                            vat.insert(len(vat) - 1, t2)
                 if self.pr("variant_ghosts", 0.05):
                     vat.append(Instr(self.ch(["ghosts", "ghosts_owned", "ghosts_ref"]), self.ch(["g: { 1 }", "0: { 1 }, h: { @.x }", "g: { ~ }"]), tag=("ghosts", None)))
                 if self.pr("member_repeat", 0.0):
@@ -580,7 +588,16 @@ class G:
                 ded = (self.ch(cparts) + "| ") if self.pr("dedicated", 0.25) else ""
                 fa.append(Instr("parent", ded + self.parent_args(self.p.get("parent_depth", 2)), tag=("parent", None)))
                 if ded and self.pr("second_parent", 0.3):
-                    fa.append(Instr("parent", self.parent_args(1), tag=("parent", None)))
+                    others = [c for c in cparts if c + "| " != ded]
+                    if others and self.pr("x", 0.5):
+                        # a parameterless parent dedicated to another counterpart next to the parameterised one
+                        p2 = Instr("parent", self.ch(others), tag=("parent", None))
+                    else:
+                        p2 = Instr("parent", self.parent_args(1), tag=("parent", None))
+                    if self.pr("x", 0.5):
+                        fa.append(p2)
+                    else:
+                        fa.insert(len(fa) - 1, p2)
             else:
                 if self.pr("member_instr", 0.35):
                     fa.append(self.member_map_instr(cparts, target_named=True, nfields=nf))
@@ -721,7 +738,7 @@ PROFILES = {
     "enum": {"max_variants": 4, "member_instr": 0.3, "variant_map": 0.35, "type_hint": 0.2, "variant_ghost": 0.12, "ghosts": 0.12,
              "default_case": 0.3, "fallible": 0.35, "multi_cpart": 0.25, "dedicated": 0.3, "variant_ghosts": 0.08, "ghost_field": 0.1, "try_pair": 0.12},
     "enum-members": {"max_variants": 3, "payload_heavy": 0.85, "member_instr": 0.55, "member_try": 0.4, "try_pair": 0.35, "fallible": 0.6, "dedicated": 0.3,
-                     "multi_cpart": 0.3, "type_hint": 0.25, "multi_instr": 0.5, "ghost_field": 0.1, "variant_map": 0.2},
+                     "multi_cpart": 0.3, "type_hint": 0.25, "multi_instr": 0.5, "ghost_field": 0.1, "variant_map": 0.2, "type_hint_pair": 0.5},
     "enum-prim": {"enum_prim": 1.0, "max_variants": 5, "default_case": 0.6, "fallible": 0.4, "lit": 0.6, "pat": 0.7, "prim_ghost": 0.12},
     "tree": {"max_fields": 6, "max_depth": 3, "member_instr": 0.3, "fallible": 0.3, "multi_cpart": 0.3, "hints": 0.2, "ghosts": 0.2, "dedicated": 0.25, "mixed_levels": 0.3, "child_ghosts_ded": 0.35, "ghost_only_child": 0.2, "generic_cpart": 0.15},
     "trait-params": {"max_fields": 3, "vars": 0.5, "attr_params": 0.4, "update": 0.3, "quick_return": 0.2, "default_case": 0.4, "trait_repeat": 0.3,
@@ -729,12 +746,12 @@ PROFILES = {
     "repeat": {"max_fields": 6, "min_fields": 2, "member_repeat": 0.35, "member_instr": 0.5, "ghost_field": 0.15, "max_variants": 4, "variant_map": 0.3,
                "trait_repeat": 0.4, "vars": 0.3, "update": 0.2, "multi_instr": 0.6, "type_hint": 0.2, "variant_repeat_run": 0.35},
     "multi-counterpart": {"multi_cpart": 1.0, "dedicated": 0.6, "member_instr": 0.6, "ghost_field": 0.2, "ghosts": 0.3, "where_clause": 0.3, "multi_instr": 0.5,
-                          "fallible": 0.3, "variant_map": 0.4, "type_hint": 0.3, "variant_ghost": 0.15, "variant_ghosts": 0.1, "try_pair": 0.15, "child_ghosts_ded": 0.5},
+                          "fallible": 0.3, "variant_map": 0.4, "type_hint": 0.3, "variant_ghost": 0.15, "variant_ghosts": 0.1, "try_pair": 0.15, "child_ghosts_ded": 0.5, "type_hint_pair": 0.5},
     "generics": {"generics": 1.0, "generic_cpart": 0.7, "where_clause": 0.5, "max_fields": 2, "trailing_comma": 0.2, "multi_cpart": 0.3, "fallible": 0.3, "dedicated": 0.4},
     "expr": {"deep_expr": 0.8, "member_instr": 0.7, "ghost_field": 0.2, "ghosts": 0.2, "vars": 0.4, "update": 0.3, "quick_return": 0.15, "default_case": 0.3,
              "variant_map": 0.5, "max_fields": 3},
     "parents": {"lit_args": 0.05, "parent_heavy": 0.8, "parent_depth": 3, "nested_parent": 0.45, "nested_instr": 0.5, "max_fields": 4, "fallible": 0.3, "multi_cpart": 0.5, "hints": 0.3,
-                "dedicated": 0.3, "member_instr": 0.3, "update": 0.1, "vars": 0.1, "generic_cpart": 0.25},
+                "dedicated": 0.45, "member_instr": 0.3, "update": 0.1, "vars": 0.1, "generic_cpart": 0.25, "second_parent": 0.5},
     "trait-repeat": {"vars": 0.4, "fallible": 0.3, "attr_params": 0.1, "enum_item": 0.3, "lit": 0.3},
     "shape-change": {"shape_change": 0.8, "shape_ghost": 0.3, "fallible": 0.3, "max_variants": 3, "variant_map": 0.1, "member_try": 0.1, "multi_instr": 0.5},
     "unknowns": {"unknowns": 1.0, "max_fields": 3, "member_instr": 0.3, "multi_instr": 0.5, "max_variants": 3, "variant_map": 0.2},
